@@ -111,17 +111,17 @@ func genC08(rt *rapid.T) c08Case {
 // ---- reference ------------------------------------------------------------------------------------------
 
 type c08Tunnel struct {
-	id        uint64
-	route     string
-	signals   []c08Sig
-	interval  int64
-	creator   string
-	feePayer  string
-	active    bool
-	seq       uint64
-	latest    map[string]feedstypes.Price
-	order     []string // order of latest prices list
-	lastIntvl int64
+	id                        uint64
+	route                     string
+	signals                   []c08Sig
+	interval                  int64
+	creator                   string
+	feePayer                  string
+	active                    bool
+	seq                       uint64
+	latest                    map[string]feedstypes.Price
+	order                     []string // order of latest prices list
+	lastIntvl                 int64
 	devPacket, intervalPacket bool
 }
 
@@ -154,12 +154,12 @@ type c08World struct {
 	funder  *sim.Account
 	tunnels []*c08Tunnel
 	// running models
-	queueLen  map[string]int
-	tssActive map[string]bool
-	bal       map[string]sdk.Coins // fee payers, tunnel module, bandtss module
-	prices    map[string]feedstypes.Price
-	baseFee   sdk.Coins
-	totalBase sdk.Coins
+	queueLen                        map[string]int
+	tssActive                       map[string]bool
+	bal                             map[string]sdk.Coins // fee payers, tunnel module, bandtss module
+	prices                          map[string]feedstypes.Price
+	baseFee                         sdk.Coins
+	totalBase                       sdk.Coins
 	failedSend, deactivatedUnfunded int
 	notDue                          int
 }
@@ -335,7 +335,7 @@ func runC08(c c08Case) *pbt.Verdict {
 	}
 	var block []btx
 	valPrices := map[string]feedstypes.SignalPrice{} // pending submission for this block
-	tunnelCount := uint64(0)                          // including creations queued in this block
+	tunnelCount := uint64(0)                         // including creations queued in this block
 	pick := func(i int) *c08Tunnel {
 		if len(w.tunnels) == 0 {
 			return nil
